@@ -350,7 +350,8 @@ impl std::ops::BitOr for RowIdMask {
                 rhs_block_list -= allow_list;
                 Some(rhs_block_list)
             } else {
-                Some(rhs_block_list)
+                // If LHS is allow all, then the RHS block list disappears
+                None
             }
         } else {
             None
